@@ -456,10 +456,16 @@ where
     } else if a == T::zero() {
         // edge case with only one root.  This corresponds to
         // the case where the search direction is exactly on the
-        // cone boundary.   The root should be -c/b, but b can't
-        // be negative since both (x,y) are in the cone and it is
-        // self dual, so <x,y> \ge 0 necessarily.
-        return αmax;
+        // boundary of the cone or of its negative.  The quadratic
+        // degenerates to b*α + c.  If y is on the boundary of the
+        // cone itself then b >= 0 by self duality and there is no
+        // positive root.  If -y is on the boundary of the cone
+        // then b < 0 and the root is -c/b > 0.
+        return if b < T::zero() {
+            T::min(αmax, -c / b)
+        } else {
+            αmax
+        };
     } else if c == T::zero() {
         // Edge case with one of the roots at 0.   This corresponds
         // to the case where the initial point is exactly on the
